@@ -33,8 +33,10 @@ OPTSETS = [
     {"no_explicit_cast": True, "no_data_loss": True},
     {"collect_errors": True},
     {"invalid_items": "exclude", "invalid_keys": "exclude", "invalid_values": "exclude"},
+    # instances of exactly the declared class only: a result (an instance) is still taken as it is
+    {"allow_subclasses": False},
 ]
-QUICK_OPTS = [0, 2, 5]
+QUICK_OPTS = [0, 2, 5, 6]
 EXACT = ("int", "Decimal", "str", "bytes", "list", "tuple", "MyInt", "MyStr")
 
 
@@ -53,6 +55,10 @@ def spec_universe(tier):
     else:
         specs += tg.logical_specs(leaves=tg.LOGIC_LEAVES[:9])
     specs += tg.dataclass_specs()
+    # containers of data-class instances (the result holds instances, which the second parse meets as elements)
+    for base in ("Schema", "DataClass"):
+        dc = ("dc", base, (("a", ("t", "int"), None),), None)
+        specs += [("g", "List", (dc,)), ("g", "TupleVar", (dc,)), ("g", "Dict", (("t", "str"), dc)), ("g", "Optional", (dc,))]
     return specs
 
 
